@@ -269,7 +269,7 @@ func H_C17_Unmarshal_ReqNest() {
 func H_C08_TInt32()    { pbC08(&TInt32{}, c08N(5, 7)) }
 func H_C08_TSint64()   { pbC08(&TSint64{}, c08N(5, 7)) }
 func H_C08_TSfixed32() { pbC08(&TSfixed32{}, c08N(6, 8)) }
-func H_C08_TDouble()   { pbC08(&TDouble{}, c08N(6, 10)) }
+func H_C08_TDouble()   { pbC08(&TDouble{}, c08N(6, 8)) }
 func H_C08_TBool()     { pbC08(&TBool{}, c08N(5, 7)) }
 func H_C08_TEnum()     { pbC08(&TEnum{}, c08N(5, 7)) }
 func H_C08_TString()   { pbC08(&TString{}, c08N(5, 7)) }
@@ -282,7 +282,7 @@ func H_C08_XInt32()    { xsetup_XInt32(); pbC08(&XInt32{}, c08N(5, 7)) }
 func H_C08_XSint64()   { xsetup_XSint64(); pbC08(&XSint64{}, c08N(5, 7)) }
 func H_C08_XBool()     { xsetup_XBool(); pbC08(&XBool{}, c08N(5, 7)) }
 func H_C08_XSfixed32() { xsetup_XSfixed32(); pbC08(&XSfixed32{}, c08N(6, 8)) }
-func H_C08_XDouble()   { xsetup_XDouble(); pbC08(&XDouble{}, c08N(6, 10)) }
+func H_C08_XDouble()   { xsetup_XDouble(); pbC08(&XDouble{}, c08N(6, 8)) }
 func H_C08_XString()   { xsetup_XString(); pbC08(&XString{}, c08N(5, 7)) }
 func H_C08_XBytes()    { xsetup_XBytes(); pbC08(&XBytes{}, c08N(5, 7)) }
 func H_C08_XAll()      { xsetup_XAll(); pbC08(&XAll{}, c08N(5, 6)) }
